@@ -310,6 +310,11 @@ def run_job(job, wid):
         r = results[h["name"]]
         if r["outcome"] != "fail":
             continue
+        # A failure that is entirely a recorded known finding needs no counterexample values (pass 2 costs 10-20x pass 1).
+        if r["failed"] and all((h["name"], c["desc"]) in KNOWN_KEYS or (h["mod"] + "::" + h["role"], c["desc"]) in KNOWN_KEYS
+                               for c in r["failed"]):
+            r["playback"], r["playback_status"], r["playback_log"] = [], "skipped (known finding)", None
+            continue
         log2 = os.path.join(WORK, "logs", h["name"].replace("::", "__") + ".playback.log")
         status, wall, peak = run_limited(kani_cmd([h], target_dir, True), HARNESS_DIR,
                                          base_env(build, " --cfg verif_nocover"),
@@ -350,6 +355,9 @@ def run_all(harnesses, jobs, mem_budget_gb):
         w.join()
     return results
 
+
+# (harness name or role, assertion) pairs of status=known findings of the property being decided; set by ./check
+KNOWN_KEYS = set()
 
 _native_lock = threading.Lock()
 _native_built = {}
